@@ -11,7 +11,7 @@
 EXTENDS Values, Json, SequencesExt
 VARIABLE done
 Leaves == { Num(0), Num(1), Num(-1), Num(65792), Str(""), Str("a"), Str("1"), Str("/a"), Str("a\"b"), Str("two\nlines"), Str("C:\\temp"), Str("C:\temp"),
-            Nm("/a"), Nm("/a/b"), Nm("/1"), <<"y", "a">>, <<"y", "">>, <<"f", "1">>, <<"f", "1.5">>, <<"f", "-0.5">>, <<"f", "0">>, <<"f", "-0">>,
+            Nm("/a"), Nm("/a/b"), Nm("/1"), <<"y", "a">>, <<"y", "">>, <<"f", "1">>, <<"f", "1.5">>, <<"f", "-0.5">>, <<"f", "0">>, <<"f", "-0">>, <<"f", "NaN">>, <<"f", "+Inf">>, <<"f", "-Inf">>,
             Tm(0), Tm(1), Du(0), Du(90),
             \* instants with a sub-second part on both sides of the epoch, one second apart (unit: 1 ns)
             Tm(-1), Tm(999999999), Tm(-999999999), Tm(-1000000000), Tm(-1000000001), Tm(1000000000), Du(-1), Du(-90) }
